@@ -160,3 +160,27 @@ pub fn permutations(n: usize) -> Vec<Vec<usize>> {
     rec(&mut vec![], &mut vec![false; n], n, &mut out);
     out
 }
+
+/// Splits `items` into the runs a style hands over together: a run of one item goes through the single-item
+/// method, longer runs through the bulk method (ConfigBuild.tla: the sequence of declarations is the input, how it is
+/// handed to the builder is not).
+pub fn runs<T>(items: Vec<T>, style: usize) -> Vec<Vec<T>> {
+    let n = items.len();
+    let cuts: Vec<usize> = match style % 5 {
+        0 => (1..n).collect(),                 // one at a time
+        1 => vec![],                           // all at once
+        2 => vec![1],                          // the first alone, the rest at once
+        3 => vec![n.saturating_sub(1)],        // all but the last at once, the last alone
+        _ => vec![n / 2],                      // two bulk calls
+    };
+    let mut out: Vec<Vec<T>> = vec![vec![]];
+    for (i, it) in items.into_iter().enumerate() {
+        if cuts.contains(&i) && i > 0 {
+            out.push(vec![]);
+        }
+        out.last_mut().unwrap().push(it);
+    }
+    out.retain(|r| !r.is_empty());
+    out
+}
+
